@@ -159,7 +159,9 @@ class C06(Prop):
         try:
             path = os.path.join(d, "p.db")
             st = PeeweeStorage(testing=True, filepath=path)
-            res = [commitlib.second_view(path, "peewee")]
+            # every completed operation is durable on the auto-committing store: the expected durable states are what the
+            # store's OWN connection sees at the operation boundaries
+            res = [commitlib.raw_dump(st.db.connection(), "peewee")]
             for op in full["resolved"]:
                 op = list(op)
                 if op[0] == "insert":
@@ -171,7 +173,7 @@ class C06(Prop):
                 elif op[0] == "replacelast":
                     op = op[:3]
                 commitlib.apply_op(st, op, [], lambda: set())
-                res.append(commitlib.second_view(path, "peewee"))
+                res.append(commitlib.raw_dump(st.db.connection(), "peewee"))
             st.db.close()
             return res
         finally:
